@@ -218,6 +218,8 @@ PROPERTIES = {
             ('C18-R5', c18.rule_type_checks, 'quick'),
             ('C13-R2', cglob.rule_yield_filtered, 'quick'),
             ('C04-R10', cextra.rule_dirfd_siblings, 'quick'),
+            ('C05-R4', cglob.rule_specials_and_start, 'quick'),
+            ('C02-R7', c02.rule_nodir, 'quick'),
         ],
     },
     'C13': {
@@ -269,6 +271,7 @@ PROPERTIES = {
             ('C17-R7', cextra.rule_flag_mask_agreement, 'quick'),
             ('C17-R6', cextra.rule_case_fold_consistency, 'quick'),
             ('C02-R9', cextra.rule_references_table, 'quick'),
+            ('C17-R8', cextra.rule_sequence_separator, 'quick'),
         ],
     },
     'C07': {
